@@ -22,8 +22,8 @@ func VerifEncodeLeave(ltime uint64, node string, prune bool) []byte {
 	return b
 }
 
-// VerifEncodePushPull encodes the membership part of a messagePushPull.
-func VerifEncodePushPull(ltime uint64, status map[string]uint64, left []string) []byte {
+// VerifEncodeMemberPushPull encodes the membership part of a messagePushPull.
+func VerifEncodeMemberPushPull(ltime uint64, status map[string]uint64, left []string) []byte {
 	pp := messagePushPull{
 		LTime:        LamportTime(ltime),
 		StatusLTimes: make(map[string]LamportTime, len(status)),
